@@ -130,6 +130,20 @@ def check_generated(case, shard, mon, rng):
         shard.covered("masks", f"POI fixed at {poi_val}")
     grads = [False] + ([True] if pyhf.tensorlib.name != "numpy" else [])
     mon.context = {"spec": case["spec"], "mask": mask_kind, "poi_val": poi_val}
+    # how far is the fixed-POI hypothesis from the data?  (largest per-bin tension at the initial nuisance values)
+    extreme = False
+    if poi_val is not None:
+        p0 = list(init)
+        p0[poi] = poi_val
+        exp0 = [float(v) for v in to_np(model.expected_actualdata(pyhf.tensorlib.astensor(p0)))]
+        tension = max(abs(d - e) / math.sqrt(max(e, 1.0)) for d, e in zip(case["data"], exp0))
+        extreme = tension > 6.0
+        shard.maximum("largest_tension_of_a_fixed_poi_hypothesis", tension)
+
+    def mech(name):
+        # a hypothesis more than 6 sigma away from the data in some bin: the optimum sits at nuisance bounds in the
+        # extrapolation regime; suboptimal "successful" fits there are a recorded finding with its own mechanism
+        return "C05/suboptimal-at-extreme-conditional-fit" if extreme else name
     if sum(1 for i, f in enumerate(fixed) if not f and not (poi_val is not None and i == poi)) == 0:
         shard.skip("no free parameter left (nothing to fit)")
         return
@@ -158,7 +172,7 @@ def check_generated(case, shard, mon, rng):
     for key, (x, fun) in results.items():
         m = MARGIN[key[0]]
         if fun - best > m:
-            shard.violate(f"C05/config-disagreement:{key[0]}", f"configuration {key} attains 2NLL={fun!r} but {best_key} attains {best!r} (difference {fun - best:.3g} > {m}); backend={pyhf.tensorlib.name} mask={mask_kind}", dict(case, results={str(k): v for k, v in results.items()}), "config_matrix")
+            shard.violate(mech(f"C05/config-disagreement:{key[0]}"), f"configuration {key} attains 2NLL={fun!r} but {best_key} attains {best!r} (difference {fun - best:.3g} > {m}); backend={pyhf.tensorlib.name} mask={mask_kind}", dict(case, results={str(k): v for k, v in results.items()}), "config_matrix")
         else:
             shard.ok("config_matrix")
             shard.maximum(f"config_spread_{key[0]}", fun - best)
@@ -171,7 +185,7 @@ def check_generated(case, shard, mon, rng):
             x2, f2 = run_fit(m2, data, list(init), list(bounds), list(fixed), poi_val)
             f2 = float(to_np(f2).reshape(-1)[0])
             if abs(f2 - best) > 1e-4 + (MARGIN["minuit"] if best_key[0] == "minuit" else 0):
-                shard.violate("C05/backend-disagreement", f"numpy/scipy attains 2NLL={f2!r}, {home}/{best_key} attains {best!r}; mask={mask_kind}", dict(case, backend=home), "config_matrix")
+                shard.violate(mech("C05/backend-disagreement"), f"numpy/scipy attains 2NLL={f2!r}, {home}/{best_key} attains {best!r}; mask={mask_kind}", dict(case, backend=home), "config_matrix")
             else:
                 shard.ok("config_matrix")
                 shard.covered("cross_backend_compared", f"{home} vs numpy")
@@ -190,7 +204,7 @@ def check_generated(case, shard, mon, rng):
             x, fun = results[key]
             bf, bx = better_point(model, data, x, fun, bounds, fixed_eff, init, rng)
             if fun - bf > MARGIN[opt]:
-                shard.violate(f"C05/not-optimal:{opt}", f"fit {key} reported success with 2NLL={fun!r} but the feasible point {bx} has 2NLL={bf!r} (better by {fun - bf:.3g} > {MARGIN[opt]}); backend={pyhf.tensorlib.name} mask={mask_kind}", dict(case, x=x, better=bx), "better_point_search")
+                shard.violate(mech(f"C05/not-optimal:{opt}"), f"fit {key} reported success with 2NLL={fun!r} but the feasible point {bx} has 2NLL={bf!r} (better by {fun - bf:.3g} > {MARGIN[opt]}); backend={pyhf.tensorlib.name} mask={mask_kind}", dict(case, x=x, better=bx), "better_point_search")
             else:
                 shard.ok("better_point_search")
                 shard.maximum(f"improvement_found_{opt}", fun - bf)
